@@ -51,11 +51,13 @@ import (
 )
 
 type fullSpec struct {
-	Scenario string `json:"scenario"` // zones | dead | client | shed-global | shed-zone | enforce | killswitch | enrich | shed-nsaddr
+	Scenario string `json:"scenario"` // zones | dead | client | shed-global | shed-zone | enforce | killswitch | enrich | shed-nsaddr | lame | cdfail
 	MinMS    int64  `json:"min_ms"`   // 0 = default
 	MaxMS    int64  `json:"max_ms"`
-	Half     string `json:"half"` // behaviour of the failing server of the partly-alive zone: refused | servfail | drop
-	Seed     uint64 `json:"seed"` // every later choice derives from this
+	Half     string `json:"half"`             // behaviour of the failing server of the partly-alive zone: refused | servfail | drop
+	Seed     uint64 `json:"seed"`             // every later choice derives from this
+	DNSSEC   string `json:"dnssec,omitempty"` // cdfail: "off" runs the resolver with dnssec = "off" ("" = on)
+	Alt      bool   `json:"alt,omitempty"`    // lame: the second zone mix (see buildLame)
 }
 
 type fullOp struct {
@@ -79,7 +81,14 @@ type fullZone struct {
 	apex    string
 	servers []*authsim.Server
 	zone    *zm.Zone
-	mode    string // honest | refused | servfail | mixed | dead | half
+	mode    string // honest | refused | servfail | mixed | dead | half | lame
+	// mode "lame" (full_ext.go): one behaviour per server ADDRESS —
+	// healthy | refused | servfail | notimp | drop — applied once lameOn
+	beh    []string
+	lameOn bool
+	prime  bool
+	nhosts int
+	nexist int
 }
 
 type fullRun struct {
@@ -99,6 +108,9 @@ type fullRun struct {
 	nclient int
 	nname   int
 	dead    bool
+	lame    []*fullZone       // scenario lame: zones with 2..6 server addresses, k of them failing
+	broken  map[string]string // scenario cdfail: apex -> variant of zones whose servers only send unusable referrals
+	cdv     []*cdVariant
 }
 
 type fout struct {
@@ -121,6 +133,8 @@ func scriptFor(mode string) authsim.Action {
 		return authsim.Rcode(dns.RcodeRefused)
 	case "servfail":
 		return authsim.Rcode(dns.RcodeServerFailure)
+	case "notimp":
+		return authsim.Rcode(dns.RcodeNotImplemented)
 	case "drop":
 		return authsim.Drop()
 	}
@@ -130,7 +144,7 @@ func scriptFor(mode string) authsim.Action {
 func newFullRun(r *vlib.Run, c fullCase) (*fullRun, error) {
 	f := &fullRun{r: r, c: c, rng: rand.New(rand.NewPCG(c.Spec.Seed, 0xC13)),
 		zones: map[string]*fullZone{}, failed: map[string]bool{}, partly: map[string]bool{},
-		tainted: map[string]bool{}, locals: map[qkey]string{}, zlocals: map[string]string{}}
+		tainted: map[string]bool{}, locals: map[qkey]string{}, zlocals: map[string]string{}, broken: map[string]string{}}
 	u := authsim.New()
 	f.u = u
 	sr, st := u.AddServer("root"), u.AddServer("tld")
@@ -208,6 +222,12 @@ func newFullRun(r *vlib.Run, c fullCase) (*fullRun, error) {
 			v2.On(h.Name, dns.TypeAAAA, authsim.Rcode(dns.RcodeServerFailure))
 		}
 	}
+	switch c.Spec.Scenario {
+	case "lame":
+		f.buildLame(tld)
+	case "cdfail":
+		f.buildCDFail(root, tld)
+	}
 	for _, z := range f.zones {
 		f.applyMode(z)
 	}
@@ -231,6 +251,14 @@ func newFullRun(r *vlib.Run, c fullCase) (*fullRun, error) {
 		case "killswitch":
 			no := false
 			cfg.RFC9520 = &no
+		case "cdfail":
+			if c.Spec.DNSSEC == "off" {
+				cfg.DNSSEC = "off"
+			}
+			// small enough for the scripted chain of ever deeper referrals
+			// (variant maxdepth) to run into it, large enough for every
+			// honest path of this universe (root -> test. -> zone)
+			cfg.Maxdepth = cdMaxdepth
 		}
 		cfg.Prefetch = 0
 		// IPv6 NS-address enrichment sleeps a fixed 2 s (holding a limiter slot)
@@ -274,6 +302,8 @@ func (f *fullRun) applyMode(z *fullZone) {
 		z.servers[0].SetDefault(scriptFor("refused"))
 		z.servers[1].SetDefault(scriptFor("servfail"))
 		f.failed[z.apex] = true
+	case "lame":
+		f.applyLame(z)
 	case "half":
 		z.servers[0].SetDefault(scriptFor(f.c.Spec.Half))
 		if f.c.Spec.Half != "drop" {
@@ -423,9 +453,12 @@ func (f *fullRun) Q(tag, client, name string, qtype uint16, cd bool, mods qmods)
 	if out.Wall >= f.timeout*8/10 {
 		r.Count("full_slow_requests", 1)
 		for _, p := range pk {
-			if p.Action == "honest" && p.Zone != "" && !f.tainted[p.Zone] {
+			if honestLabel(p.Action) && p.Zone != "" && !f.tainted[p.Zone] {
 				f.tainted[p.Zone] = true
 				r.Count("full_zones_tainted_by_slow_request", 1)
+				if os.Getenv("C13_DEBUG") != "" {
+					fmt.Fprintf(os.Stderr, "full %d/%s op %s tainted %s by %s\n", f.c.Index, f.c.Spec.Scenario, tag, p.Zone, p.String())
+				}
 			}
 		}
 	}
@@ -486,6 +519,10 @@ func (f *fullRun) Q(tag, client, name string, qtype uint16, cd bool, mods qmods)
 			r.Distinct(fmt.Sprintf("full-expiry|%d|%d|k%d|%s", f.c.Spec.MinMS, f.c.Spec.MaxMS, cov.tightK, cov.tightKind))
 		case cov.tomb:
 			r.Count("full_probes_after_reset", 1)
+		}
+		if tag == "nearmiss:cd" && out.EDE13 && !out.Suppressed {
+			// reached upstream AND claims a cached error: failure state of the other CD value leaked
+			r.Violation("bleed/cd", fmt.Sprintf("full pipeline: %s was answered with EDE 13 (Cached Error) although only the same question with the OTHER CD value had failed", desc), f.replay())
 		}
 		if strings.HasPrefix(tag, "nearmiss:") && !f.m.disabled {
 			r.Count("full_nearmiss_"+strings.TrimPrefix(tag, "nearmiss:"), 1)
@@ -613,10 +650,19 @@ func (f *fullRun) checkState(idx int, tag string) {
 			}
 			continue
 		}
+		other := k
+		other.CD = !k.CD
 		switch {
 		case f.locals[k] != "":
 			c := f.locals[k]
 			r.Violation("local/"+c+"/recorded", "full pipeline: a request-local failure ("+c+") became shared failure state: "+desc, f.replay())
+		case f.m.q[other] != nil && f.m.q[other].Ever:
+			// "a question failure applies to exactly that ... CD value": this
+			// (name,type,class) failed for clients asking with the other CD value only
+			r.Violation("state/question-failure-filed-under-other-cd", fmt.Sprintf("full pipeline (dnssec=%s): the only failed resolutions of this question were asked with cd=%v, yet the failure is filed under cd=%v: %s", f.dnssecMode(), other.CD, k.CD, desc), f.replay())
+		case f.brokenZoneOf(name) != "":
+			// internal sub-queries into a zone that only sends unusable referrals may fail on their own
+			r.Count("full_state_unmodelled_question_under_broken_zone", 1)
 		case f.failedZoneOf(name) != "" || f.taintedAbove(name):
 			// internal sub-queries into a failing zone may fail on their own
 			r.Count("full_state_unmodelled_question_under_failed_zone", 1)
@@ -1258,6 +1304,10 @@ func runFullCase(r *vlib.Run, c fullCase) {
 		f.scenarioEnrich()
 	case "shed-nsaddr":
 		f.scenarioShedNSAddr()
+	case "lame":
+		f.scenarioLame()
+	case "cdfail":
+		f.scenarioCDFail()
 	}
 	if r.ReplayCase() != nil {
 		for _, o := range f.c.Ops {
@@ -1275,13 +1325,22 @@ var fullBounds = [][2]int64{{0, 0}, {1000, 4000}, {2000, 0}, {1000, 1000}, {3000
 func fullSpecFor(r *vlib.Run, i int) fullSpec {
 	rng := r.RandN("full", i)
 	// the scenario mix is a fixed function of the index
-	scen := []string{"zones", "client", "shed-global", "shed-zone", "enforce", "killswitch", "zones", "dead", "enrich", "shed-nsaddr"}[i%10]
+	scens := []string{"zones", "client", "shed-global", "shed-zone", "enforce", "killswitch", "zones", "dead", "enrich", "shed-nsaddr",
+		"lame", "cdfail", "lame", "cdfail"}
+	scen := scens[i%len(scens)]
 	b := fullBounds[rng.IntN(len(fullBounds))]
-	return fullSpec{Scenario: scen, MinMS: b[0], MaxMS: b[1], Half: []string{"refused", "servfail", "drop"}[rng.IntN(3)], Seed: rng.Uint64()}
+	sp := fullSpec{Scenario: scen, MinMS: b[0], MaxMS: b[1], Half: []string{"refused", "servfail", "drop"}[rng.IntN(3)], Seed: rng.Uint64()}
+	switch i % len(scens) {
+	case 11:
+		sp.DNSSEC = "off"
+	case 12:
+		sp.Alt = true
+	}
+	return sp
 }
 
 func runFullChild(r *vlib.Run) {
-	n := r.N(10, 400)
+	n := r.N(14, 420)
 	for i := 0; i < n; i++ {
 		runFullCase(r, fullCase{Kind: "full", Index: i, Spec: fullSpecFor(r, i)})
 		r.Progress("full case %d/%d", i+1, n)
